@@ -1,19 +1,23 @@
 """TEMPORARY fragment (to be merged into convert.py by the parent): bounded Kani group for heap integers -> f32/f64."""
 
-_LOW = 'all lower words fully symbolic (shared by the sweep), top word concrete: '
+_LOW3 = '3 words: low and middle word fully symbolic (2^128, shared by the sweep) x concrete top word '
 
 KANI = {
     'int_to_float_k': {
         'package': 'dashu-int', 'target': 'integer/src/convert.rs', 'file': 'int_to_float_k.rs',
-        'harnesses': {
-            'vk_int_to_float_k_ibig_f64_w3_pow2': {'kind': 'bounded', 'bound': '3 words, both signs; ' + _LOW + '2^k for every k in 0..=63'},
-            'vk_int_to_float_k_ibig_f64_w3_ones': {'kind': 'bounded', 'bound': '3 words, both signs; ' + _LOW + '2^(k+1)-1 for every k in 0..=63'},
-            'vk_int_to_float_k_ibig_f64_w3_tie': {'kind': 'bounded', 'bound': '3 words, both signs; ' + _LOW + '2^k+2^(k-53), 2^k+3*2^(k-53) for k in 53..=63 and 6 fixed patterns'},
-            'vk_int_to_float_k_ubig_f64_w3': {'kind': 'bounded', 'bound': '3 words; ' + _LOW + '2^k for k = 0,3,..,63, 6 fixed patterns, u64::MAX'},
-            'vk_int_to_float_k_ibig_f32_w3': {'kind': 'bounded', 'bound': '3 words, both signs; ' + _LOW + '2^k for every k in 0..=63, u64::MAX'},
-            'vk_int_to_float_k_ubig_f32_w3': {'kind': 'bounded', 'bound': '3 words; ' + _LOW + '2^k for k = 0,3,..,63, u64::MAX'},
-            'vk_int_to_float_k_ibig_f64_w4': {'kind': 'bounded', 'bound': '4 words, both signs; ' + _LOW + '2^k for every k in 0..=63, u64::MAX'},
-            'vk_int_to_float_k_w17_inf': {'kind': 'bounded', 'bound': '17 words, both signs; 16 lower words fully symbolic, top word 1'},
-        },
+        'harnesses': dict(
+            [('vk_int_to_float_k_ubig_f64_w3_pow2_' + s, {'kind': 'bounded', 'bound': _LOW3 + '2^k, k in %d..=%d' % (lo, lo + 15)})
+             for s, lo in (('a', 0), ('b', 16), ('c', 32), ('d', 48))] +
+            [('vk_int_to_float_k_ubig_f64_w3_ones_' + s, {'kind': 'bounded', 'bound': _LOW3 + '2^(k+1)-1, k in %d..=%d' % (lo, lo + 15)})
+             for s, lo in (('a', 0), ('b', 16), ('c', 32), ('d', 48))] +
+            [('vk_int_to_float_k_ubig_f64_w3_tie_even', {'kind': 'bounded', 'bound': _LOW3 + '2^k + 2^(k-53), k in 53..=63'}),
+             ('vk_int_to_float_k_ubig_f64_w3_tie_odd', {'kind': 'bounded', 'bound': _LOW3 + '2^k + 3*2^(k-53), k in 53..=63'}),
+             ('vk_int_to_float_k_ubig_f64_w3_fixed', {'kind': 'bounded', 'bound': _LOW3 + 'from 6 fixed patterns'}),
+             ('vk_int_to_float_k_ibig_f64_w3', {'kind': 'bounded', 'bound': _LOW3 + 'from 8 values x both signs'}),
+             ('vk_int_to_float_k_ubig_f32_w3', {'kind': 'bounded', 'bound': _LOW3 + '2^k, k in 0..=63, and u64::MAX'}),
+             ('vk_int_to_float_k_ibig_f32_w3', {'kind': 'bounded', 'bound': _LOW3 + 'from 8 values x both signs'}),
+             ('vk_int_to_float_k_ubig_f64_w4', {'kind': 'bounded', 'bound': '4 words: three lower words fully symbolic x concrete top word 2^k (k = 3,7,..,63), 1, u64::MAX'}),
+             ('vk_int_to_float_k_w17_inf', {'kind': 'bounded', 'bound': '17 words: 16 lower words fully symbolic, top word 1, UBig and negative IBig (to_f64 only)'}),
+             ]),
     },
 }
